@@ -82,6 +82,18 @@ def run(F, rep, tier):
     # stays resolvable after its block (a scope the resolver forgets to close) is read as nil outside that block
     import c09
     c09.scope_rules(F, rep, "SCOPE")
+    # arithmetic on tuples and strings: what the metamethods of the runtime do with the operators the emitter writes
+    import c19
+    ast_ = c19.luaparse.parse(F.read("sylt-compiler/src/preamble.lua"))
+    mf_ = c19.meta_functions(ast_)
+    c19.arith(rep, mf_, F)
+    c19.concat(rep, ast_)
+    # every variable a lowering template writes is a Lua local of its activation (blobs with `self`, case bindings, results)
+    import c10
+    c10.local_rule(F, rep, T)
+    # every element of every list of statements / arguments / fields is lowered
+    import c07 as _c07
+    _c07.visit_loops_complete(F, rep)
     # .. and once: a node lowered twice runs its effects twice
     import c07
     c07.single_visit(F, rep)
